@@ -21,6 +21,7 @@ int count () { return nid; }
 string oid_of (object ob) {
   string s;
   if (ob == this_object ()) return "o1";
+  if (file_name (ob) == "/simul_efun") return "o0";
   s = rev[ob];
   return stringp (s) ? s : "?" + file_name (ob);
 }
@@ -44,6 +45,16 @@ object get_keep () { return keep; }
 object get_keepa () { return keepa[0]; }
 object get_keepm () { return keepm["k"]; }
 
+string join_ids (int *a);
+int *reg_ids (object *a);
+mixed do_op (string s, mixed hookarg);
+string live_ids () { string r = join_ids (reg_ids (objects ())); return r == "" ? "-" : r; }
+// the master runs `ofilt` scripts too (objects(filter) issued from the top level)
+void c08_run (string key, mixed arg) {
+  string s = next_script ("o1:" + key);
+  if (!stringp (s)) return;
+  foreach (string op in explode (s, ";")) do_op (op, arg);
+}
 #include "/c08/ops.h"
 
 void top (string op) { do_op (op, 0); }
